@@ -1,21 +1,38 @@
 // C16 — accepted configurations always instantiate; rejected ones fail cleanly.
 //
-// Executions: every base configuration (the repository's sample file and four hand-written valid files) with one
-// invalid value substituted at one site, written to a file and loaded in a child process exactly as the product
-// loads it: run.ParseConfigFile, and if that returns no error run.NewLoaderFromConfigFile -> StartOrchestrator ->
-// LaunchInputs -> probe records over TCP (chosen so that every match of the file is taken, coverage measured with the
-// real transforms) -> shutdownInputs -> Orchestrator.Shutdown. Plus randomly generated valid configurations.
+// Executions: a valid configuration file with one invalid value substituted at one site, written to a file and loaded
+// in a child process exactly as the product loads it: run.ParseConfigFile (under recover), and if that returns no
+// error run.NewLoaderFromConfigFile -> StartOrchestrator -> LaunchInputs -> probe records over TCP to every input
+// (chosen so that every match of the file is taken; coverage measured with the real parser and transforms on a
+// marker-instrumented copy) -> shutdownInputs -> Orchestrator.Shutdown. Valid files: testdata/config_sample.yml, four
+// hand-written files (bases.go) and randomly generated valid configurations (randcfg.go), which are also loaded and
+// exercised unmodified. Sites and data classes: sites.go; invalid kinds per class: kinds.go.
+//
+// Tiers: the complete site x kind product over the five fixed files runs in BOTH tiers; random valid files used as
+// further bases are sampled in quick (8 files, 1500 variants) and complete in thorough (120 files); 150 / 5000 random
+// valid files are run as they are.
 //
 // Oracle (exactly the property): the outcome of a file is either a clean error value from the loader, or "accepted
 // and survived" — everything it configures was constructed and processed the probes. Refuted by: a panic inside
 // ParseConfigFile; an accepted file whose construction or processing panics, dereferences nil or exits the process
 // (logger.Fatal); and — the statement's second sentence — an accepted file that references an undefined field,
-// template variable, capture name or step type ("...:accepted" classes).
+// template variable, capture name or step type (fingerprints ending in ":accepted").
 //
-// Deliberately allowed: any error text; rejecting a mutation that happens to be harmless; accepting a mutation that
-// is harmless (an empty secret, an unusual label); errors LOGGED by the running agent (unreachable upstream, rejected
-// handshake, undecodable chunk in the test consumer); upstream connections failing for as long as the run lasts.
-// A case that does not finish within the watchdog is inconclusive, never a violation.
+// Deliberately allowed: any error text; refusing a substitution that happens to be harmless; accepting one that is
+// harmless (YAML drops null list elements and null map entries, truncates 1.5 to 1, an empty secret, a negative
+// duration, a glob the library tolerates, an upstream port nobody listens on); errors LOGGED by the running agent
+// (unreachable upstream, refused handshake, a chunk the test consumer cannot decode); upstream connections failing
+// for as long as the run lasts. A case that does not finish within the watchdog is inconclusive, never a violation.
+// Not generated: addresses that are syntactically valid but cannot be bound or resolved here (environment), and
+// probe records near the serializer's fixed buffer (C07/C11).
+//
+// Process model: children run batches and append one JSON line per case to results.jsonl; a child killed by a case
+// names it through the case log, the case is confirmed alone in a fresh process, the rest of the batch is queued
+// again. A panic recovered after agent goroutines were started ends the child deliberately (exit 4). Once a class is
+// refuted by a process death the remaining variants of that class are skipped (and "exhaustive" is not claimed).
+//
+// Debugging aids: `c16 --list` (sites, kinds, probes), `c16 --run file.yml [real]` (load and exercise one file),
+// VERIF_C16_DUMP=<file> (one line per judged variant), `./check C16 quick --replay <replay.json>`.
 package main
 
 import (
@@ -36,16 +53,15 @@ import (
 	"verifharness/internal/vkit"
 )
 
-
 type parent struct {
 	mu         sync.Mutex
 	refutedSet map[string]bool
-	c      *vkit.Ctx
-	pl     *plan
-	bases  []*Base
-	probes []*Probes
-	sel    []Variant
-	samples map[string]int
+	c          *vkit.Ctx
+	pl         *plan
+	bases      []*Base
+	probes     []*Probes
+	sel        []Variant
+	samples    map[string]int
 }
 
 // plan is everything parent and children must agree on: bases, probes and the ordered list of variants.
@@ -774,11 +790,11 @@ type replayFile struct {
 	Tier        string `json:"tier"`
 	Fingerprint string `json:"fingerprint"`
 	Witness     struct {
-		Base    string `json:"base"`
-		Site    string `json:"site"`
-		Kind    string `json:"invalid_kind"`
-		Real    bool   `json:"real_forwarders"`
-		Index   *int   `json:"index"`
+		Base  string `json:"base"`
+		Site  string `json:"site"`
+		Kind  string `json:"invalid_kind"`
+		Real  bool   `json:"real_forwarders"`
+		Index *int   `json:"index"`
 	} `json:"witness"`
 }
 
